@@ -504,11 +504,31 @@ class MockIncludeDirective:
             )
             return codeblock.run()
 
+        # guard against a file that (directly or indirectly) includes itself,
+        # as docutils does: the same file with the same clipping options is a cycle
+        include_key = (
+            os.path.abspath(path),
+            *(
+                self.options.get(key)
+                for key in ("start-line", "end-line", "start-after", "end-before")
+            ),
+        )
+        include_stack: list[tuple] = self.renderer.md_env.setdefault(
+            "include_stack",
+            [(os.path.abspath(self.renderer.document["source"]), None, None, None, None)],
+        )
+        if include_key in include_stack:
+            raise DirectiveError(
+                2,
+                f'Directive "{self.name}": circular inclusion of {str(path)!r}',
+            )
+
         # Here we perform a nested render, but temporarily setup the document/reporter
         # with the correct document path and lineno for the included file.
         source = self.renderer.document["source"]
         rsource = self.renderer.reporter.source
         line_func = getattr(self.renderer.reporter, "get_source_and_line", None)
+        include_stack.append(include_key)
         try:
             self.renderer.document["source"] = str(path)
             self.renderer.reporter.source = str(path)
@@ -529,6 +549,7 @@ class MockIncludeDirective:
                 heading_offset=self.options.get("heading-offset", 0),
             )
         finally:
+            include_stack.pop()
             self.renderer.document["source"] = source
             self.renderer.reporter.source = rsource
             self.renderer.md_env.pop("relative-images", None)
